@@ -1,7 +1,7 @@
 (* Proofs about Model/Conv.v: slicing lemmas, masked tap sums, layer-level export equalities (C01). *)
 From Coq Require Import QArith ZArith List Bool Arith Lia.
 Import ListNotations.
-Require Import Plinio.Model.Masks Plinio.Model.Conv.
+Require Import Plinio.Model.Masks Plinio.Model.Conv Plinio.Proofs.Masks.
 Local Open Scope nat_scope.
 
 (* ---------------------------------------------------------------- kept / select *)
@@ -306,4 +306,405 @@ Proof.
   f_equal. eapply conv1d_core_dw; eauto.
 Qed.
 
+
+(* ---- conv2d / linear: only the channel axes are sliced *)
+Definition shape4 (w : w4 R) (cout cin : nat) : Prop := length w = cout /\ (forall co, co < cout -> length (nth co w []) = cin).
+
+Lemma w4at_export_full mout min (w : w4 R) co' i cout cin : shape4 w cout cin -> length mout = cout -> length min = cin ->
+  co' < count_true mout -> i < count_true min ->
+  w4at (export_w4 false mout min w) co' i = nth i (map (fun a => a) (select min (nth (nth co' (kept mout) 0) w []))) [].
+Proof.
+  intros (Hw & Hc) Hmo Hmi Hco Hi. unfold w4at, export_w4.
+  rewrite (nth_map_in _ (select mout w) co' [] []) by (rewrite select_length; lia).
+  rewrite (select_nth mout w [] co') by lia. rewrite map_id. reflexivity.
+Qed.
+
+Lemma taps2_zero wk kh kw d (x : Z -> Z -> R) u v : (forall a b, x a b = r0) -> taps2 r0 radd rmul wk kh kw d x u v = r0.
+Proof. intro H. unfold taps2. apply rsum_zero. intros a _. apply rsum_zero. intros b _. rewrite H. apply rmul_0_r. Qed.
+
+Theorem conv2d_export_eq_full maskbias (w : w4 R) b bn cout cin kh kw d s ph pw mout min (x : nat -> Z -> Z -> R) co' h v :
+  shape4 w cout cin -> bias_ok b cout -> bn_ok bn cout -> length mout = cout -> length min = cin ->
+  (forall ci, ci < cin -> nth ci min false = false -> forall a c, x ci a c = r0) ->
+  co' < count_true mout ->
+  pit_conv2d_at r0 r1 radd rmul maskbias false false w b bn cin kh kw d s ph pw mout x (nth co' (kept mout) 0) h v
+  = bn_at r0 radd rmul (slice_bn mout bn) co'
+      (conv2d_at r0 radd rmul false (export_w4 false mout min w) (export_bias mout b) (count_true min) kh kw d s ph pw
+         (fun i => x (nth i (kept min) 0)) co' h v).
+Proof.
+  intros Hs Hb Hbn Hmo Hmi Hdead Hco. unfold pit_conv2d_at.
+  assert (Hco' : co' < length (kept mout)) by (rewrite kept_length; exact Hco).
+  destruct (kept_nth_alive mout co' Hco') as [Ea Hlt]. rewrite gate_alive by exact Ea.
+  rewrite bn_slice_commutes by (try exact Hco; intros a sh E; destruct (Hbn a sh E); lia).
+  f_equal. unfold conv2d_at.
+  rewrite (addbias_slice b mout co') by (try exact Hco; intros bl E; rewrite (Hb bl E); lia). f_equal.
+  set (co := nth co' (kept mout) 0) in *. destruct Hs as (Hw & Hc). rewrite Hmo in Hlt.
+  unfold w4at at 1.
+  rewrite (chan_slice (fun a => a)
+             (fun wk ci => taps2 r0 radd rmul wk kh kw d (x ci) (s * h - ph)%Z (s * v - pw)%Z)
+             (fun wk ci => taps2 r0 radd rmul wk kh kw d (x ci) (s * h - ph)%Z (s * v - pw)%Z)
+             (nth co w []) min cin [] []); auto.
+  - apply f_equal. apply map_seq_ext. intros i Hi. rewrite (w4at_export_full mout min w co' i cout cin) by (auto; split; auto). reflexivity.
+  - intros ci Hci E. apply taps2_zero. intros a c. apply (Hdead ci Hci E).
+Qed.
+
+Theorem conv2d_export_eq_dw maskbias (w : w4 R) b bn c kh kw d s ph pw mout min (x : nat -> Z -> Z -> R) co' h v :
+  shape4 w c 1 -> bias_ok b c -> bn_ok bn c -> length mout = c -> co' < count_true mout ->
+  pit_conv2d_at r0 r1 radd rmul maskbias false true w b bn c kh kw d s ph pw mout x (nth co' (kept mout) 0) h v
+  = bn_at r0 radd rmul (slice_bn mout bn) co'
+      (conv2d_at r0 radd rmul true (export_w4 true mout min w) (export_bias mout b) (count_true min) kh kw d s ph pw
+         (fun i => x (nth i (kept mout) 0)) co' h v).
+Proof.
+  intros (Hw & Hc) Hb Hbn Hmo Hco. unfold pit_conv2d_at.
+  assert (Hco' : co' < length (kept mout)) by (rewrite kept_length; exact Hco).
+  destruct (kept_nth_alive mout co' Hco') as [Ea Hlt]. rewrite gate_alive by exact Ea.
+  rewrite bn_slice_commutes by (try exact Hco; intros a sh E; destruct (Hbn a sh E); lia).
+  f_equal. unfold conv2d_at.
+  rewrite (addbias_slice b mout co') by (try exact Hco; intros bl E; rewrite (Hb bl E); lia). f_equal.
+  unfold w4at, export_w4. rewrite (nth_map_in _ (select mout w) co' [] []) by (rewrite select_length; lia).
+  rewrite (select_nth mout w [] co') by lia. reflexivity.
+Qed.
+
+Definition shape2 (w : list (list R)) (cout cin : nat) : Prop := length w = cout /\ (forall co, co < cout -> length (nth co w []) = cin).
+
+Theorem linear_export_eq maskbias (w : list (list R)) b bn cout cin mout min (x : nat -> R) co' :
+  shape2 w cout cin -> bias_ok b cout -> bn_ok bn cout -> length mout = cout -> length min = cin ->
+  (forall ci, ci < cin -> nth ci min false = false -> x ci = r0) ->
+  co' < count_true mout ->
+  pit_linear_at r0 r1 radd rmul maskbias false w b bn cin mout x (nth co' (kept mout) 0)
+  = bn_at r0 radd rmul (slice_bn mout bn) co'
+      (linear_at r0 radd rmul (export_w2 mout min w) (export_bias mout b) (count_true min) (fun i => x (nth i (kept min) 0)) co').
+Proof.
+  intros (Hw & Hc) Hb Hbn Hmo Hmi Hdead Hco. unfold pit_linear_at.
+  assert (Hco' : co' < length (kept mout)) by (rewrite kept_length; exact Hco).
+  destruct (kept_nth_alive mout co' Hco') as [Ea Hlt]. rewrite gate_alive by exact Ea.
+  rewrite bn_slice_commutes by (try exact Hco; intros a sh E; destruct (Hbn a sh E); lia).
+  f_equal. unfold linear_at.
+  rewrite (addbias_slice b mout co') by (try exact Hco; intros bl E; rewrite (Hb bl E); lia). f_equal.
+  set (co := nth co' (kept mout) 0) in *. rewrite Hmo in Hlt.
+  rewrite (chan_slice (fun a => a) (fun a ci => rmul a (x ci)) (fun a ci => rmul a (x ci)) (nth co w []) min cin r0 r0); auto.
+  - apply f_equal. apply map_seq_ext. intros i Hi. unfold export_w2.
+    rewrite (nth_map_in _ (select mout w) co' [] []) by (rewrite select_length; lia).
+    rewrite (select_nth mout w [] co') by lia. fold co. rewrite map_id. reflexivity.
+  - intros ci Hci E. rewrite (Hdead ci Hci E). apply rmul_0_r.
+Qed.
+
+(* ---- fold_bn = true: weights (and, in the repaired code, the bias) are multiplied by the output mask *)
+Lemma combine_nil_r {A B} (l : list A) : combine l (@nil B) = [].
+Proof. destruct l; reflexivity. Qed.
+
+Lemma w3at_time' tm (w : w3 R) co ci :
+  w3at (mask_w3_time r0 r1 rmul tm w) co ci = map (fun p => rmul (bit (fst p)) (snd p)) (combine tm (w3at w co ci)).
+Proof.
+  unfold w3at, mask_w3_time.
+  set (h := fun wk : list R => map (fun p => rmul (bit (fst p)) (snd p)) (combine tm wk)).
+  change (@nil (list R)) with (map h []) at 1. rewrite map_nth.
+  replace (@nil R) with (h []) at 1 by (unfold h; rewrite combine_nil_r; reflexivity). rewrite map_nth. reflexivity.
+Qed.
+
+Lemma w3at_out mout (w : w3 R) co ci : length mout = length w ->
+  w3at (mask_w3_out r0 r1 rmul mout w) co ci = map (fun x => rmul x (bit (nth co mout false))) (w3at w co ci).
+Proof.
+  intro H. unfold w3at, mask_w3_out. destruct (Nat.lt_ge_cases co (length w)) as [Hco|Hco].
+  - rewrite (nth_map_in _ (combine mout w) co (false, []) []) by (rewrite combine_length; lia).
+    rewrite combine_nth by exact H. cbn [fst snd].
+    set (g := map (fun x => rmul x (bit (nth co mout false)))).
+    change (@nil R) with (g []) at 1. rewrite map_nth. reflexivity.
+  - rewrite (nth_overflow (map _ (combine mout w))) by (rewrite map_length, combine_length; lia).
+    rewrite (nth_overflow w) by exact Hco. destruct ci; reflexivity.
+Qed.
+
+Lemma nth_mask_bias mout (bl : list R) co : length bl = length mout ->
+  nth co (map (fun p => rmul (snd p) (bit (fst p))) (combine mout bl)) r0 = rmul (nth co bl r0) (bit (nth co mout false)).
+Proof.
+  intro H. destruct (Nat.lt_ge_cases co (length bl)) as [Hj|Hj].
+  - rewrite (nth_map_in _ (combine mout bl) co (false, r0) r0) by (rewrite combine_length; lia).
+    rewrite combine_nth by lia. reflexivity.
+  - rewrite nth_overflow by (rewrite map_length, combine_length; lia).
+    rewrite (nth_overflow bl) by exact Hj. rewrite rmul_0_l. reflexivity.
+Qed.
+
+Lemma conv1d_at_ext dw (w w' : w3 R) b b' cin K d s x co t :
+  (forall ci, w3at w co ci = w3at w' co ci) -> (forall acc, addbias r0 radd b co acc = addbias r0 radd b' co acc) ->
+  conv1d_at r0 radd rmul dw w b cin K d s x co t = conv1d_at r0 radd rmul dw w' b' cin K d s x co t.
+Proof.
+  intros Hw Hb. unfold conv1d_at. rewrite Hb. f_equal. destruct dw; [rewrite Hw; reflexivity|].
+  apply f_equal. apply map_ext. intro ci. rewrite Hw. reflexivity.
+Qed.
+
+(* alive channel: the folded forward is the plain masked-taps convolution *)
+Lemma fold_alive_conv1d maskbias dw (w : w3 R) b bn cin K d s mout tm x co t :
+  length mout = length w -> bias_ok b (length mout) -> nth co mout false = true ->
+  pit_conv1d_at r0 r1 radd rmul maskbias true dw w b bn cin K d s mout tm x co t
+  = conv1d_at r0 radd rmul dw (mask_w3_time r0 r1 rmul tm w) b cin K d s x co t.
+Proof.
+  intros Hl Hb Ea. unfold pit_conv1d_at. apply conv1d_at_ext.
+  - intro ci. rewrite !w3at_time', w3at_out by exact Hl. rewrite Ea. cbn [Conv.bit].
+    rewrite (map_ext _ (fun x => x)) by (intro; apply rmul_1_r). rewrite map_id. reflexivity.
+  - intro acc. destruct maskbias; [|reflexivity]. destruct b as [bl|]; [|reflexivity]. cbn.
+    rewrite nth_mask_bias by (apply Hb; reflexivity). rewrite Ea. cbn. rewrite rmul_1_r. reflexivity.
+Qed.
+
+Lemma taps_zero wk K d (x : Z -> R) u : (forall j, nth j wk r0 = r0) -> taps r0 radd rmul wk K d x u = r0.
+Proof. intro H. unfold taps. apply rsum_zero. intros j _. rewrite H. apply rmul_0_l. Qed.
+
+(* dead channel under fold_bn, REPAIRED code (maskbias = true): exactly zero *)
+Theorem dead_out_zero_conv1d_fold dw (w : w3 R) b bn cin K d s mout tm x co t :
+  length mout = length w -> bias_ok b (length mout) -> nth co mout false = false ->
+  pit_conv1d_at r0 r1 radd rmul true true dw w b bn cin K d s mout tm x co t = r0.
+Proof.
+  intros Hl Hb Ed. unfold pit_conv1d_at, conv1d_at.
+  assert (Hz : forall ci j, nth j (w3at (mask_w3_time r0 r1 rmul tm (mask_w3_out r0 r1 rmul mout w)) co ci) r0 = r0).
+  { intros ci j. rewrite w3at_time', w3at_out by exact Hl. rewrite Ed. cbn [Conv.bit].
+    set (z := map (fun x0 : R => rmul x0 r0) (w3at w co ci)).
+    destruct (Nat.lt_ge_cases j (length (combine tm z))) as [Hj|Hj].
+    - rewrite (nth_map_in _ (combine tm z) j (false, r0) r0) by exact Hj.
+      destruct (nth j (combine tm z) (false, r0)) as [a bb] eqn:E.
+      assert (Hin : In (a, bb) (combine tm z)) by (rewrite <- E; apply nth_In; exact Hj).
+      apply in_combine_r in Hin. unfold z in Hin. apply in_map_iff in Hin. destruct Hin as [x0 [Hx _]].
+      cbn [fst snd]. rewrite <- Hx, rmul_0_r. apply rmul_0_r.
+    - apply nth_overflow. rewrite map_length. exact Hj. }
+  assert (Hacc : (if dw then taps r0 radd rmul (w3at (mask_w3_time r0 r1 rmul tm (mask_w3_out r0 r1 rmul mout w)) co 0) K d (x co) (s * t)%Z
+                  else rsum (map (fun ci => taps r0 radd rmul (w3at (mask_w3_time r0 r1 rmul tm (mask_w3_out r0 r1 rmul mout w)) co ci) K d (x ci) (s * t)%Z) (seq 0 cin))) = r0).
+  { destruct dw; [apply taps_zero; apply Hz|]. apply rsum_zero. intros ci _. apply taps_zero. apply Hz. }
+  rewrite Hacc. destruct b as [bl|]; [|reflexivity]. cbn.
+  rewrite nth_mask_bias by (apply Hb; reflexivity). rewrite Ed. cbn. rewrite rmul_0_r. apply radd_0_l.
+Qed.
+
+Theorem conv1d_export_eq_fold_full maskbias (w : w3 R) b bn cout cin K K' sp d s mout min tm (x : nat -> Z -> R) co' t :
+  shape3 w cout cin K -> bias_ok b cout -> length mout = cout -> length min = cin -> length tm = K ->
+  kept_lags K tm = export_lags K' sp ->
+  (forall ci, ci < cin -> nth ci min false = false -> forall u, x ci u = r0) ->
+  co' < count_true mout ->
+  pit_conv1d_at r0 r1 radd rmul maskbias true false w b bn cin K (Z.of_nat d) s mout tm (fun ci => padl ((K - 1) * d) (x ci)) (nth co' (kept mout) 0) t
+  = conv1d_at r0 radd rmul false (export_w3 false mout min tm w) (export_bias mout b) (count_true min) K' (Z.of_nat (sp * d)) s
+      (fun i => padl ((K' - 1) * (sp * d)) (x (nth i (kept min) 0))) co' t.
+Proof.
+  intros Hs Hb Hmo Hmi Htm Hl Hdead Hco.
+  assert (Hco' : co' < length (kept mout)) by (rewrite kept_length; exact Hco).
+  destruct (kept_nth_alive mout co' Hco') as [Ea _].
+  rewrite fold_alive_conv1d; [|destruct Hs as (Hw & _); lia|rewrite Hmo; exact Hb|exact Ea].
+  eapply conv1d_core_full; eauto.
+Qed.
+
+Theorem conv1d_export_eq_fold_dw maskbias (w : w3 R) b bn c K K' sp d s mout min tm (x : nat -> Z -> R) co' t :
+  shape3 w c 1 K -> bias_ok b c -> length mout = c -> length tm = K ->
+  kept_lags K tm = export_lags K' sp -> co' < count_true mout ->
+  pit_conv1d_at r0 r1 radd rmul maskbias true true w b bn c K (Z.of_nat d) s mout tm (fun ci => padl ((K - 1) * d) (x ci)) (nth co' (kept mout) 0) t
+  = conv1d_at r0 radd rmul true (export_w3 true mout min tm w) (export_bias mout b) (count_true min) K' (Z.of_nat (sp * d)) s
+      (fun i => padl ((K' - 1) * (sp * d)) (x (nth i (kept mout) 0))) co' t.
+Proof.
+  intros Hs Hb Hmo Htm Hl Hco.
+  assert (Hco' : co' < length (kept mout)) by (rewrite kept_length; exact Hco).
+  destruct (kept_nth_alive mout co' Hco') as [Ea _].
+  rewrite fold_alive_conv1d; [|destruct Hs as (Hw & _); lia|rewrite Hmo; exact Hb|exact Ea].
+  eapply conv1d_core_dw; eauto.
+Qed.
+
 End RingProofs.
+
+(* ================================================================ packaged statements (carrier laws as one premise) *)
+Definition laws {R} (r0 r1 : R) (radd rmul : R -> R -> R) : Prop :=
+  (forall x, radd r0 x = x) /\ (forall x, rmul r0 x = r0) /\ (forall x, rmul x r0 = r0) /\ (forall x, rmul r1 x = x) /\ (forall x, rmul x r1 = x).
+Lemma laws_Z : laws 0%Z 1%Z Z.add Z.mul.
+Proof. repeat split; intro x; lia. Qed.
+Require Import Coq.QArith.Qcanon.
+Close Scope Qc_scope.
+Lemma laws_Qc : laws 0%Qc 1%Qc Qcplus Qcmult.
+Proof.
+  repeat split; intro x.
+  - apply Qcplus_0_l.
+  - apply Qcmult_0_l.
+  - apply Qcmult_0_r.
+  - apply Qcmult_1_l.
+  - apply Qcmult_1_r.
+Qed.
+
+Ltac use_laws thm := intros R r0 r1 radd rmul (H1 & H2 & H3 & H4 & H5); apply (thm R r0 r1 radd rmul); assumption.
+
+Lemma L_masked_sum_filter : forall R r0 r1 radd rmul, @laws R r0 r1 radd rmul -> forall (m : list bool) (w X : nat -> R) K, length m = K ->
+  rsum r0 radd (map (fun j => rmul (rmul (bit r0 r1 (nth j m false)) (w j)) (X j)) (seq 0 K)) = rsum r0 radd (map (fun j => rmul (w j) (X j)) (kept m)).
+Proof. use_laws masked_sum_filter. Qed.
+
+Lemma L_taps_export_eq : forall R r0 r1 radd rmul, @laws R r0 r1 radd rmul -> forall (tm : list bool) (wk : list R) (K K' sp d : nat) (x : Z -> R) (u : Z),
+  length tm = K -> length wk = K -> kept_lags K tm = export_lags K' sp ->
+  taps r0 radd rmul (map (fun p => rmul (bit r0 r1 (fst p)) (snd p)) (combine tm wk)) K (Z.of_nat d) (padl ((K - 1) * d) x) u
+  = taps r0 radd rmul (select tm wk) K' (Z.of_nat (sp * d)) (padl ((K' - 1) * (sp * d)) x) u.
+Proof. use_laws taps_export_eq. Qed.
+
+Lemma time_mask_length K beta gamma : length beta = K -> length (time_mask true K beta gamma) = K.
+Proof.
+  intro H. unfold time_mask. rewrite map_length, combine_length.
+  assert (E1 : length (theta_gamma true K gamma) = K) by (unfold theta_gamma; rewrite map_length, seq_length; reflexivity).
+  assert (E2 : length (theta_beta beta) = K) by (unfold theta_beta; rewrite map_length, seq_length; exact H).
+  rewrite E1, E2. lia.
+Qed.
+
+(* the layer-level statement of C01 for a full 1-D convolution, fold_bn off / on, over the REAL mask parameters *)
+Definition conv1d_export_statement {R} (r0 r1 : R) radd rmul (fold : bool) :=
+  forall maskbias (w : w3 R) b bn cout cin K d0 s beta gamma mout min (x : nat -> Z -> R) co' t,
+  1 <= K -> length beta = K -> length gamma = gamma_len K ->
+  shape3 R w cout cin K -> bias_ok R b cout -> bn_ok R bn cout -> length mout = cout -> length min = cin ->
+  (forall ci, ci < cin -> nth ci min false = false -> forall u, x ci u = r0) ->
+  co' < count_true mout ->
+  let tm := time_mask true K beta gamma in
+  let K' := kernel_size_opt true K beta gamma in
+  let d' := dilation_opt true K d0 gamma in
+  pit_conv1d_at r0 r1 radd rmul maskbias fold false w b bn cin K (Z.of_nat d0) s mout tm (fun ci => padl ((K - 1) * d0) (x ci)) (nth co' (kept mout) 0) t
+  = bn_at r0 radd rmul (if fold then None else slice_bn mout bn) co'
+      (conv1d_at r0 radd rmul false (export_w3 false mout min tm w) (export_bias mout b) (count_true min) K' (Z.of_nat d') s
+         (fun i => padl ((K' - 1) * d') (x (nth i (kept min) 0))) co' t).
+
+Theorem conv1d_export_eq : forall R r0 r1 radd rmul, @laws R r0 r1 radd rmul -> forall fold, conv1d_export_statement r0 r1 radd rmul fold.
+Proof.
+  intros R r0 r1 radd rmul (H1 & H2 & H3 & H4 & H5) fold. unfold conv1d_export_statement.
+  intros maskbias w b bn cout cin K d0 s beta gamma mout min x co' t HK Hb Hg Hs Hbi Hbn Hmo Hmi Hdead Hco.
+  destruct (kept_taps_progression K d0 beta gamma HK Hb Hg) as (v & _ & Hd & Hl & _). cbv zeta. rewrite Hd.
+  destruct fold.
+  - cbn [bn_at]. eapply conv1d_export_eq_fold_full; eauto using time_mask_length.
+  - eapply conv1d_export_eq_full; eauto using time_mask_length.
+Qed.
+
+(* depthwise: the layer's mask is its producer's (shared masker): the exported input is the tensor sliced by mout *)
+Definition dw_export_statement {R} (r0 r1 : R) radd rmul (fold : bool) :=
+  forall maskbias (w : w3 R) b bn c K d0 s beta gamma mout min (x : nat -> Z -> R) co' t,
+  1 <= K -> length beta = K -> length gamma = gamma_len K ->
+  shape3 R w c 1 K -> bias_ok R b c -> bn_ok R bn c -> length mout = c -> co' < count_true mout ->
+  let tm := time_mask true K beta gamma in
+  let K' := kernel_size_opt true K beta gamma in
+  let d' := dilation_opt true K d0 gamma in
+  pit_conv1d_at r0 r1 radd rmul maskbias fold true w b bn c K (Z.of_nat d0) s mout tm (fun ci => padl ((K - 1) * d0) (x ci)) (nth co' (kept mout) 0) t
+  = bn_at r0 radd rmul (if fold then None else slice_bn mout bn) co'
+      (conv1d_at r0 radd rmul true (export_w3 true mout min tm w) (export_bias mout b) (count_true min) K' (Z.of_nat d') s
+         (fun i => padl ((K' - 1) * d') (x (nth i (kept mout) 0))) co' t).
+
+Theorem dw_export_eq : forall R r0 r1 radd rmul, @laws R r0 r1 radd rmul -> forall fold, dw_export_statement r0 r1 radd rmul fold.
+Proof.
+  intros R r0 r1 radd rmul (H1 & H2 & H3 & H4 & H5) fold. unfold dw_export_statement.
+  intros maskbias w b bn c K d0 s beta gamma mout min x co' t HK Hb Hg Hs Hbi Hbn Hmo Hco.
+  destruct (kept_taps_progression K d0 beta gamma HK Hb Hg) as (v & _ & Hd & Hl & _). cbv zeta. rewrite Hd.
+  destruct fold.
+  - cbn [bn_at]. eapply conv1d_export_eq_fold_dw; eauto using time_mask_length.
+  - eapply conv1d_export_eq_dw; eauto using time_mask_length.
+Qed.
+
+(* frozen time maskers (stride <> 1): all-ones time mask, kernel / dilation / padding unchanged *)
+Lemma kept_all_true n : kept (all_true n) = seq 0 n.
+Proof.
+  induction n as [|n IH]; [reflexivity|]. unfold all_true in *. cbn [repeat]. rewrite kept_cons, IH. cbn [app seq].
+  rewrite seq_shift. reflexivity.
+Qed.
+Lemma frozen_lags K : kept_lags K (all_true K) = export_lags K 1.
+Proof.
+  unfold kept_lags, export_lags. pose proof (kept_all_true K) as H. unfold kept, all_true in H. rewrite repeat_length in H.
+  unfold all_true. rewrite H. apply map_ext. intro j. lia.
+Qed.
+
+Lemma L_conv1d_export_eq_frozen : forall R r0 r1 radd rmul, @laws R r0 r1 radd rmul ->
+  forall maskbias (w : w3 R) b bn cout cin K d s mout min (x : nat -> Z -> R) co' t,
+  shape3 R w cout cin K -> bias_ok R b cout -> bn_ok R bn cout -> length mout = cout -> length min = cin ->
+  (forall ci, ci < cin -> nth ci min false = false -> forall u, x ci u = r0) -> co' < count_true mout ->
+  pit_conv1d_at r0 r1 radd rmul maskbias false false w b bn cin K (Z.of_nat d) s mout (all_true K) (fun ci => padl ((K - 1) * d) (x ci)) (nth co' (kept mout) 0) t
+  = bn_at r0 radd rmul (slice_bn mout bn) co'
+      (conv1d_at r0 radd rmul false (export_w3 false mout min (all_true K) w) (export_bias mout b) (count_true min) K (Z.of_nat (1 * d)) s
+         (fun i => padl ((K - 1) * (1 * d)) (x (nth i (kept min) 0))) co' t).
+Proof.
+  intros R r0 r1 radd rmul (H1 & H2 & H3 & H4 & H5). intros.
+  eapply conv1d_export_eq_full; eauto using frozen_lags. unfold all_true. apply repeat_length.
+Qed.
+
+Lemma L_conv2d_export_eq : forall R r0 r1 radd rmul, @laws R r0 r1 radd rmul ->
+  forall maskbias (w : w4 R) b bn cout cin kh kw d s ph pw mout min (x : nat -> Z -> Z -> R) co' h v,
+  shape4 R w cout cin -> bias_ok R b cout -> bn_ok R bn cout -> length mout = cout -> length min = cin ->
+  (forall ci, ci < cin -> nth ci min false = false -> forall a c, x ci a c = r0) ->
+  co' < count_true mout ->
+  pit_conv2d_at r0 r1 radd rmul maskbias false false w b bn cin kh kw d s ph pw mout x (nth co' (kept mout) 0) h v
+  = bn_at r0 radd rmul (slice_bn mout bn) co'
+      (conv2d_at r0 radd rmul false (export_w4 false mout min w) (export_bias mout b) (count_true min) kh kw d s ph pw
+         (fun i => x (nth i (kept min) 0)) co' h v).
+Proof. use_laws conv2d_export_eq_full. Qed.
+
+Lemma L_conv2d_export_eq_dw : forall R r0 r1 radd rmul, @laws R r0 r1 radd rmul ->
+  forall maskbias (w : w4 R) b bn c kh kw d s ph pw mout min (x : nat -> Z -> Z -> R) co' h v,
+  shape4 R w c 1 -> bias_ok R b c -> bn_ok R bn c -> length mout = c -> co' < count_true mout ->
+  pit_conv2d_at r0 r1 radd rmul maskbias false true w b bn c kh kw d s ph pw mout x (nth co' (kept mout) 0) h v
+  = bn_at r0 radd rmul (slice_bn mout bn) co'
+      (conv2d_at r0 radd rmul true (export_w4 true mout min w) (export_bias mout b) (count_true min) kh kw d s ph pw
+         (fun i => x (nth i (kept mout) 0)) co' h v).
+Proof. use_laws conv2d_export_eq_dw. Qed.
+
+Lemma L_linear_export_eq : forall R r0 r1 radd rmul, @laws R r0 r1 radd rmul ->
+  forall maskbias (w : list (list R)) b bn cout cin mout min (x : nat -> R) co',
+  shape2 R w cout cin -> bias_ok R b cout -> bn_ok R bn cout -> length mout = cout -> length min = cin ->
+  (forall ci, ci < cin -> nth ci min false = false -> x ci = r0) ->
+  co' < count_true mout ->
+  pit_linear_at r0 r1 radd rmul maskbias false w b bn cin mout x (nth co' (kept mout) 0)
+  = bn_at r0 radd rmul (slice_bn mout bn) co'
+      (linear_at r0 radd rmul (export_w2 mout min w) (export_bias mout b) (count_true min) (fun i => x (nth i (kept min) 0)) co').
+Proof. use_laws linear_export_eq. Qed.
+
+Lemma L_dead_out_zero : forall R r0 r1 radd rmul, @laws R r0 r1 radd rmul ->
+  (forall maskbias dw w b bn cin K d s mout tm x co t, nth co mout false = false ->
+     pit_conv1d_at r0 r1 radd rmul maskbias false dw w b bn cin K d s mout tm x co t = r0) /\
+  (forall maskbias dw w b bn cin kh kw d s ph pw mout x co h v, nth co mout false = false ->
+     pit_conv2d_at r0 r1 radd rmul maskbias false dw w b bn cin kh kw d s ph pw mout x co h v = r0) /\
+  (forall maskbias w b bn cin mout x co, nth co mout false = false ->
+     pit_linear_at r0 r1 radd rmul maskbias false w b bn cin mout x co = r0) /\
+  (* fold_bn = true, repaired code *)
+  (forall dw (w : w3 R) b bn cin K d s mout tm x co t, length mout = length w -> bias_ok R b (length mout) -> nth co mout false = false ->
+     pit_conv1d_at r0 r1 radd rmul true true dw w b bn cin K d s mout tm x co t = r0).
+Proof.
+  intros R r0 r1 radd rmul (H1 & H2 & H3 & H4 & H5). repeat split; intros.
+  - apply (dead_out_zero_conv1d R r0 r1 radd rmul); assumption.
+  - apply (dead_out_zero_conv2d R r0 r1 radd rmul); assumption.
+  - apply (dead_out_zero_linear R r0 r1 radd rmul); assumption.
+  - apply (dead_out_zero_conv1d_fold R r0 r1 radd rmul); assumption.
+Qed.
+
+Lemma L_bn_slice_commutes : forall R (r0 : R) radd rmul (bn : option (list R * list R)) (mout : list bool) co' y,
+  bn_ok R bn (length mout) -> co' < count_true mout ->
+  bn_at r0 radd rmul (slice_bn mout bn) co' y = bn_at r0 radd rmul bn (nth co' (kept mout) 0) y.
+Proof. intros. apply bn_slice_commutes; assumption. Qed.
+
+(* the pinned upstream commit does not mask the bias under fold_bn: a pruned channel outputs its bias *)
+Theorem fold_bias_refuted : exists (w : w3 Z) b mout tm (x : nat -> Z -> Z) co t,
+  length mout = length w /\ nth co mout false = false /\
+  pit_conv1d_at 0%Z 1%Z Z.add Z.mul false true false w b None 1 1 1%Z 1%Z mout tm x co t <> 0%Z.
+Proof.
+  exists [[[1%Z]]; [[1%Z]]], (Some [5%Z; 7%Z]), [false; true], [true], (fun _ _ => 0%Z), 0, 0%Z.
+  repeat split. vm_compute. discriminate.
+Qed.
+
+(* ---------------------------------------------------------------- zero-preserving channel-wise operators *)
+Lemma relu_zero : relu 0 = 0%Z. Proof. reflexivity. Qed.
+Lemma relu6_zero : relu6 0 = 0%Z. Proof. reflexivity. Qed.
+Lemma padl_zero {R} (r0 : R) P t : padl P (fun _ => r0) t = r0. Proof. reflexivity. Qed.
+
+Lemma chunks_forall {A} (P : A -> Prop) fuel k l : Forall P l -> Forall (Forall P) (chunks fuel k l).
+Proof.
+  revert l. induction fuel as [|f IH]; intros l H; [constructor|]. cbn [chunks].
+  destruct (length l <? k); [constructor|].
+  rewrite <- (firstn_skipn k l) in H. apply Forall_app in H. destruct H as [Ha Hb].
+  constructor; [exact Ha|apply IH; exact Hb].
+Qed.
+Lemma zsum_zero l : Forall (fun x => x = 0%Z) l -> zsum l = 0%Z.
+Proof. induction 1 as [|x l Hx Hl IH]; [reflexivity|]. cbn. rewrite Hx. exact IH. Qed.
+Lemma zmax_zero l : Forall (fun x => x = 0%Z) l -> zmax l = 0%Z.
+Proof.
+  destruct 1 as [|x l Hx Hl]; [reflexivity|]. cbn. subst x.
+  induction Hl as [|y l Hy Hl IH]; [reflexivity|]. cbn. rewrite Hy, IH. reflexivity.
+Qed.
+Lemma pool_forall (red : list Z -> Z) k l : (forall c, Forall (fun x => x = 0%Z) c -> red c = 0%Z) ->
+  Forall (fun x => x = 0%Z) l -> Forall (fun x => x = 0%Z) (map red (chunks (length l) k l)).
+Proof.
+  intros Hr H. apply Forall_forall. intros y Hy. apply in_map_iff in Hy. destruct Hy as [c [<- Hc]].
+  apply Hr. pose proof (chunks_forall _ (length l) k l H) as Hf. rewrite Forall_forall in Hf. apply Hf. exact Hc.
+Qed.
+Theorem zero_preserving_pool1d k l : Forall (fun x => x = 0%Z) l ->
+  Forall (fun x => x = 0%Z) (maxpool1d k l) /\ Forall (fun x => x = 0%Z) (sumpool1d k l).
+Proof. intro H. split; apply pool_forall; auto using zmax_zero, zsum_zero. Qed.
+Theorem zero_preserving_act l : Forall (fun x => x = 0%Z) l ->
+  Forall (fun x => x = 0%Z) (map relu l) /\ Forall (fun x => x = 0%Z) (map relu6 l).
+Proof. intro H. split; apply Forall_forall; intros y Hy; apply in_map_iff in Hy; destruct Hy as [x [<- Hx]]; rewrite Forall_forall in H; rewrite (H x Hx); reflexivity. Qed.
+(* a channel-wise operator commutes with channel slicing *)
+Theorem channelwise_commutes_with_slicing {A B} (f : A -> B) m l : select m (map f l) = map f (select m l).
+Proof. apply select_map. Qed.
